@@ -433,6 +433,67 @@ class Interp:
         f.yields.append(self.eval(node.value, frame) if node.value is not None else None)
         return None
 
+    def e_JoinedStr(self, node, frame):
+        parts = []
+        for v in node.values:
+            if isinstance(v, ast.Constant):
+                parts.append(v.value)
+            elif isinstance(v, ast.FormattedValue):
+                x = _unlin(self.eval(v.value, frame))
+                if v.format_spec is not None or v.conversion not in (-1, 115):
+                    if _has_abs(x):
+                        return Opaque("fstring", [x])
+                    spec = self.eval(v.format_spec, frame) if v.format_spec is not None else ""
+                    x = format(x if v.conversion == -1 else (repr(x) if v.conversion == 114 else str(x)), spec if isinstance(spec, str) else "")
+                if isinstance(x, (AbsStr, Ch)) or hasattr(x, "a_len"):
+                    parts.append(x)
+                elif _has_abs(x):
+                    return Opaque("fstring", [x])
+                else:
+                    parts.append(str(x))
+        if all(isinstance(p_, str) for p_ in parts):
+            return "".join(parts)
+        return simplify_str(AbsStr(parts))
+
+    def e_DictComp(self, node, frame):
+        out = {}
+
+        def rec(gi, fr):
+            if gi == len(node.generators):
+                out[self.eval(node.key, fr)] = self.eval(node.value, fr)
+                return
+            g = node.generators[gi]
+            for item in self.iterate(self.eval(g.iter, fr), g.iter):
+                fr2 = Frame(fr.fi, {}, mod=fr.mod, cls=fr.cls)
+                fr2.parent = fr
+                self.assign(g.target, item, fr2)
+                if all(self.truth(self.eval(c, fr2), c) for c in g.ifs):
+                    rec(gi + 1, fr2)
+        rec(0, frame)
+        return out
+
+    def e_SetComp(self, node, frame):
+        items = self.e_ListComp(node, frame)
+        try:
+            return set(items)
+        except TypeError:
+            return Opaque("set", items)
+
+    def e_Set(self, node, frame):
+        items = [self.eval(e, frame) for e in node.elts]
+        try:
+            return set(items)
+        except TypeError:
+            return Opaque("set", items)
+
+    def e_NamedExpr(self, node, frame):
+        v = self.eval(node.value, frame)
+        self.assign(node.target, v, frame)
+        return v
+
+    def e_Starred(self, node, frame):
+        raise CannotDecide("starred expression outside a call")
+
     def e_Lambda(self, node, frame):
         fi = FuncInfo(frame.mod, "<lambda>@%d" % node.lineno, node)
         return AFunc(fi)
@@ -1438,6 +1499,27 @@ class Interp:
             return [(i + start, x) for i, x in enumerate(args[0])]
         if name == "zip" and all(isinstance(a, (list, tuple)) for a in args):
             return [tuple(t) for t in zip(*args)]
+        if name == "map" and len(args) == 2 and isinstance(args[1], (list, tuple)):
+            return [self.call(args[0], [x], {}, node) for x in args[1]]
+        if name == "filter" and len(args) == 2 and isinstance(args[1], (list, tuple)):
+            return [x for x in args[1] if (self.truth(x, node) if args[0] is None else self.truth(self.call(args[0], [x], {}, node), node))]
+        if name == "getattr" and len(args) >= 2 and isinstance(args[1], str):
+            try:
+                return self.getattr(args[0], args[1], node)
+            except RaiseEx:
+                if len(args) == 3:
+                    return args[2]
+                raise
+        if name in ("sorted", "min", "max") and args and isinstance(args[0], (list, tuple)) and "key" in kwargs and not _has_abs(args[0]):
+            keyed = [(self.call(kwargs["key"], [x], {}, node), x) for x in args[0]]
+            if not _has_abs([k_ for k_, _x in keyed]):
+                if name == "sorted":
+                    return [x for k_, x in sorted(keyed, key=lambda kv: kv[0], reverse=bool(kwargs.get("reverse", False)))]
+                return (min if name == "min" else max)(keyed, key=lambda kv: kv[0])[1]
+        if name == "sorted" and args and isinstance(args[0], (list, tuple)) and not _has_abs(args[0]) and set(kwargs) <= {"reverse"}:
+            return sorted(args[0], reverse=bool(kwargs.get("reverse", False)))
+        if name == "divmod" and len(args) == 2 and not _has_abs(args):
+            return divmod(*args)
         if name == "reversed" and isinstance(args[0], (list, tuple)):
             return AIter(list(reversed(args[0])))
         if name == "reversed" and isinstance(args[0], RepList):
@@ -1656,7 +1738,16 @@ class Interp:
 
     def assign(self, target, v, frame):
         if isinstance(target, ast.Name):
-            f = frame
+            if target.id in getattr(frame, "globals_", ()):
+                self.global_cache[(frame.mod.name, target.id)] = v
+                return
+            if target.id in getattr(frame, "nonlocals_", ()):
+                f = frame.parent
+                while f is not None:
+                    if target.id in f.locals:
+                        f.locals[target.id] = v
+                        return
+                    f = f.parent
             frame.locals[target.id] = v
         elif isinstance(target, (ast.Tuple, ast.List)):
             vals = self.iterate(v, target)
@@ -1728,6 +1819,19 @@ class Interp:
             self._closure_frames = {}
         self._closure_frames[id(st)] = frame
         frame.locals[st.name] = AFunc(qn)
+
+    def s_Global(self, st, frame):
+        frame.__dict__.setdefault("globals_", set()).update(st.names)
+
+    def s_Nonlocal(self, st, frame):
+        frame.__dict__.setdefault("nonlocals_", set()).update(st.names)
+
+    def s_With(self, st, frame):
+        for item in st.items:
+            v = self.eval(item.context_expr, frame)
+            if item.optional_vars is not None:
+                self.assign(item.optional_vars, v, frame)
+        self.exec_block(st.body, frame)
 
     def s_Import(self, st, frame):
         pass
